@@ -286,6 +286,132 @@ theorem evalFresh_sem (U : UnifOK) (P : Prog) (hv : VarsOK P) (hM : IsModelFO P 
               cases this
           · exact SemInv.of_sem hs2 hsg hnold
 
+/-! ### goals -/
+
+theorem fits_ground {args : List Val} {consts : List Const} (h : allConsts args = some consts) (a : List Const) :
+    Fits args a ↔ a = consts :=
+  ⟨fun ⟨τ, hτ⟩ => by rw [← hτ]; exact allConsts_gl h τ, fun e => ⟨fun _ => 0, by rw [e]; exact allConsts_gl h _⟩⟩
+
+theorem evalGoalWith_sem (U : UnifOK) (P : Prog) (hv : VarsOK P) (hM : IsModelFO P chosen M) (sched : Sched) {ev : Eval}
+    (hev : EvalSem chosen M ev) : EvalSem chosen M (evalGoalWith P sched ev) := by
+  intro g st rs st' hs h
+  unfold evalGoalWith at h
+  split at h
+  · rename_i consts hc
+    split at h
+    · rename_i k hl
+      simp only [pure, Except.pure, Except.ok.injEq, Prod.mk.injEq] at h
+      obtain ⟨rfl, rfl⟩ := h
+      have hd := hs.g _ (lookup_mem' _ _ _ hl)
+      refine ⟨hs, Grows.refl _, fun r hr => ?_, fun a hfa _ => ?_⟩
+      · rw [List.mem_singleton.1 hr]
+        exact ⟨(fits_ground hc consts).2 rfl, hd⟩
+      · rw [(fits_ground hc a).1 hfa]; simp
+    · exact evalFresh_sem U P hv hM sched hev g st (some consts) (fun c hc' => by cases hc'; exact hc) rs st' hs h
+  · split at h
+    · rename_i rs0 hl
+      simp only [pure, Except.pure, Except.ok.injEq, Prod.mk.injEq] at h
+      obtain ⟨rfl, rfl⟩ := h
+      exact ⟨hs, Grows.refl _, hs.n _ (lookup_mem' _ _ _ hl)⟩
+    · exact evalFresh_sem U P hv hM sched hev g st none (fun c hc' => by cases hc') rs st' hs h
+
+theorem evalGoal_sem (U : UnifOK) (P : Prog) (hv : VarsOK P) (hM : IsModelFO P chosen M) (sched : Sched) :
+    ∀ fuel, EvalSem chosen M (evalGoal P sched fuel)
+  | 0 => fun _ _ _ _ _ h => by simp [evalGoal] at h
+  | fuel + 1 => evalGoalWith_sem U P hv hM sched (evalGoal_sem U P hv hM sched fuel)
+
+/-! ### `ground`, `ground_all` -/
+
+/-- what is reported for one call: every reported instance fits the call and its key has the truth value of the instance;
+    every instance of the call that is not reported is false -/
+def CallOK (chosen : Array Bool) (M : Model) (c : Call) (rs : Results) (S : Store) : Prop :=
+  (∀ r ∈ rs, Fits c.args r.1 ∧ Den chosen S r.2 (M c.pred r.1)) ∧
+  (∀ a, Fits c.args a → a ∉ rs.map (·.1) → M c.pred a = false)
+
+theorem CallOK.mono {c : Call} {rs : Results} {S S' : Store} (hg : Grows S S') (h : CallOK chosen M c rs S) :
+    CallOK chosen M c rs S' :=
+  ⟨fun r hr => ⟨(h.1 r hr).1, (h.1 r hr).2.mono hg⟩, h.2⟩
+
+theorem nameResults_grows (P : Prog) (p : Pred) (l : Label) (rs : Results) (S : Store) (hs : SInv S) :
+    Grows S (nameResults P p l rs S) := (nameResults_ok P p l rs S hs).2.1
+
+theorem groundOne_sem (U : UnifOK) (P : Prog) (hv : VarsOK P) (hM : IsModelFO P chosen M) (sched : Sched) (fuel : Nat)
+    (st : St) (c : Call) (rs : Results) (st' : St) (hs : SemInv chosen M st)
+    (h : groundOne P sched fuel st c = .ok (rs, st')) :
+    SemInv chosen M st' ∧ Grows st.store st'.store ∧ CallOK chosen M c rs st'.store := by
+  simp only [groundOne, bind, Except.bind] at h
+  cases he : evalGoal P sched fuel ⟨c.pred, c.args⟩ st with
+  | error e => rw [he] at h; cases h
+  | ok r =>
+    obtain ⟨rs1, st1⟩ := r
+    rw [he] at h
+    obtain ⟨hs1, hg1, hres⟩ := evalGoal_sem U P hv hM sched fuel _ _ _ _ hs he
+    -- what the filter keeps / drops
+    have hcall : ∀ S', Grows st1.store S' → SInv S' →
+        CallOK chosen M c (rs1.filter (fun r => !Formula.isFalse r.2)) S' := by
+      intro S' hg' hsS'
+      refine ⟨fun r hr => ?_, fun a hfa hna => ?_⟩
+      · have := hres.1 r (List.mem_filter.1 hr).1
+        exact ⟨this.1, this.2.mono hg'⟩
+      · rw [Bool.eq_false_iff]
+        intro hMt
+        have hmem := hres.2 a hfa hMt
+        obtain ⟨r, hr, hr1⟩ := List.mem_map.1 hmem
+        obtain ⟨ρ, hρ⟩ := val_exists hs1.ti.s.acyc chosen
+        have hkv := (hres.1 r hr).2.2 ρ hρ
+        have hr1' : r.1 = a := hr1
+        rw [hr1', hMt] at hkv
+        have hnf : Formula.isFalse r.2 = false := by
+          cases hfb : Formula.isFalse r.2 with
+          | false => rfl
+          | true => rw [(GroundEval.isFalse_iff r.2).1 hfb] at hkv; cases hkv
+        exact hna (List.mem_map.2 ⟨r, List.mem_filter.2 ⟨hr, by simp [hnf]⟩, hr1⟩)
+    simp only at h
+    split at h
+    · rename_i hemp
+      simp only [pure, Except.pure, Except.ok.injEq, Prod.mk.injEq] at h
+      obtain ⟨rfl, rfl⟩ := h
+      have hgn := addName_grows st1.store (.pos c.failName) FALSE c.label false
+      have hsn := addName_sinv hs1.ti.s (.pos c.failName) FALSE c.label
+      have := hcall _ hgn hsn
+      rw [List.isEmpty_iff.1 hemp] at this
+      exact ⟨hs1.store_step hsn hgn, hg1.trans hgn, this⟩
+    · simp only [pure, Except.pure, Except.ok.injEq, Prod.mk.injEq] at h
+      obtain ⟨rfl, rfl⟩ := h
+      obtain ⟨h2, hg2, _⟩ := nameResults_ok P c.pred c.label (rs1.filter (fun r => !Formula.isFalse r.2)) st1.store hs1.ti.s
+      exact ⟨hs1.store_step h2 hg2, hg1.trans hg2, hcall _ hg2 h2⟩
+
+theorem groundAll_sem (U : UnifOK) (P : Prog) (hv : VarsOK P) (hM : IsModelFO P chosen M) (sched : Sched) (fuel : Nat) :
+    ∀ (calls : List Call) (st : St) (rss : List Results) (st' : St), SemInv chosen M st →
+      groundAll P sched fuel calls st = .ok (rss, st') →
+      SemInv chosen M st' ∧ Grows st.store st'.store ∧ rss.length = calls.length ∧
+        ∀ i (hc : i < calls.length) (hr : i < rss.length), CallOK chosen M calls[i] rss[i] st'.store
+  | [], st, rss, st', hs, h => by
+    simp only [groundAll, pure, Except.pure, Except.ok.injEq, Prod.mk.injEq] at h
+    obtain ⟨rfl, rfl⟩ := h
+    exact ⟨hs, Grows.refl _, rfl, fun i hc _ => absurd hc (Nat.not_lt_zero i)⟩
+  | c :: cs, st, rss, st', hs, h => by
+    simp only [groundAll, bind, Except.bind] at h
+    cases h1 : groundOne P sched fuel st c with
+    | error e => rw [h1] at h; cases h
+    | ok r =>
+      obtain ⟨rs1, st1⟩ := r
+      rw [h1] at h
+      obtain ⟨hs1, hg1, hc1⟩ := groundOne_sem U P hv hM sched fuel st c rs1 st1 hs h1
+      simp only at h
+      cases h2 : groundAll P sched fuel cs st1 with
+      | error e => rw [h2] at h; cases h
+      | ok r2 =>
+        obtain ⟨rss2, st2⟩ := r2
+        rw [h2] at h
+        simp only [pure, Except.pure, Except.ok.injEq, Prod.mk.injEq] at h
+        obtain ⟨rfl, rfl⟩ := h
+        obtain ⟨hs2, hg2, hl2, hc2⟩ := groundAll_sem U P hv hM sched fuel cs st1 rss2 st2 hs1 h2
+        refine ⟨hs2, hg1.trans hg2, by simp [hl2], fun i hc hr => ?_⟩
+        cases i with
+        | zero => exact hc1.mono hg2
+        | succ i => exact hc2 i (by simpa using hc) (by simpa using hr)
+
 end
 
 end ProbLogProofs.GroundFOSem
